@@ -1165,7 +1165,7 @@ PROPS = {
     },
     "C02": {
         "lean_module": "Keto.Props.C02",
-        "theorems": ["Keto.C02_effDepth_bounds", "Keto.C02_clamp", "Keto.C02_clamp_explicit", "Keto.C02_fail_closed_pos"],
+        "theorems": ["Keto.C02_effDepth_bounds", "Keto.C02_clamp", "Keto.C02_clamp_explicit", "Keto.C02_fail_closed_pos", "Keto.C02_width_sites_tie"],
         "streams": [{"name": "engine-c02", "n": {"quick": 40, "thorough": 150}, "oracle": oracle_c02, "thorough_seeds": 2},
                     {"name": "hcheck", "n": {"quick": 300, "thorough": 3000}, "oracle": oracle_c02_transports, "thorough_seeds": 2}],
         "rule": ENGINE_RULE + "; every stored state is checked over a grid of (request depth, global depth, width); stream hcheck (see C08): "
